@@ -38,6 +38,7 @@ FLOAT_SEMANTICS = ("frame obligations: exact (payloads are opaque reals / uninte
                    "split-run obligations: IEEE-754 double, relaxed rounding (sound over-approximation); off-grid families: the stop and event Julian dates are IEEE-754 doubles in "
                    "bit-exact semantics (symx.fp exact mode; models are doubles and are replayed bit for bit); cadence-config: exact integers")
 ENCODED = [
+    "resonaate.scenario.scenario_builder:ScenarioBuilder._initTargets", "resonaate.scenario.scenario_builder:ScenarioBuilder._initEstimates", "resonaate.dynamics:dynamicsFactory",
     "resonaate.scenario.scenario:Scenario.removeTarget",
     "resonaate.scenario.scenario:Scenario.__init__", "resonaate.scenario.scenario:Scenario.propagateTo", "resonaate.scenario.scenario:Scenario.stepForward",
     "resonaate.scenario.scenario:Scenario.saveDatabaseOutput", "resonaate.scenario.clock:ScenarioClock.ticToc",
@@ -1765,6 +1766,123 @@ def o_remove_frame(rep):
         rep.reachable("reach", res[0].constraints if res[0].exc is None else [])
 
 
+# ------------------------------------------------------------------------------------------------------------------------
+# builder-frame: the truth / filter dynamics the real ScenarioBuilder gives a target depend on that target's configuration only
+# ------------------------------------------------------------------------------------------------------------------------
+def _builder_world(platforms, order):
+    """Bare ScenarioBuilder (real _initTargets / _initEstimates, real dynamicsFactory, real SpecialPerturbations constructor) over the targets in `order`;
+    agent construction is a recording stub.  platforms: {id: (area, mass, reflectivity)} (numbers or proxies)."""
+    from resonaate.scenario import scenario_builder as SB
+    from resonaate.scenario.config.agent_config import AgentConfig
+    from resonaate.scenario.config.geopotential_config import GeopotentialConfig
+    from resonaate.scenario.config.perturbations_config import PerturbationsConfig
+    from resonaate.scenario.config.platform_config import SpacecraftConfig
+    from resonaate.scenario.config.propagation_config import PropagationConfig
+    from resonaate.physics.time.stardate import JulianDate
+
+    class Tok:
+        def __init__(self, **k):
+            self.__dict__.update(k)
+
+    class Log:
+        def __getattr__(self, n):
+            return lambda *a, **k: None
+
+    cfgs = {}
+    for aid in order:
+        area, mass, refl = platforms[aid]
+        base = AgentConfig(id=aid, name=f"T{aid}", state={"type": "eci", "position": [7000.0 + aid, 100.0, -300.0], "velocity": [0.3, 7.1, 2.0]}, platform={"type": "spacecraft"})
+        plat = SpacecraftConfig.model_construct(**{**base.platform.__dict__, "visual_cross_section": area, "mass": mass, "reflectivity": refl})
+        cfgs[aid] = base.model_copy(update={"platform": plat})
+    b = object.__new__(SB.ScenarioBuilder)
+    b.validated_target_configs = cfgs
+    b.logger = Log()
+    b.clock = Tok(julian_date_start=JulianDate(2459000.5), julian_date_epoch=JulianDate(2459000.5), time=0.0)
+    est = Tok(sequential_filter=Tok(dynamics_model="special_perturbations"))
+    b._config = Tok(propagation=PropagationConfig(propagation_model="special_perturbations"), geopotential=GeopotentialConfig(),
+                   perturbations=PerturbationsConfig(third_bodies=["sun"], solar_radiation_pressure=True, general_relativity=False), time=None, noise=None, estimation=est)
+    got = {"truth": {}, "filter": {}}
+
+    class TA:
+        @staticmethod
+        def fromConfig(tgt_cfg, clock, dynamics, prop_cfg):
+            got["truth"][tgt_cfg.id] = dynamics
+            return Tok(simulation_id=tgt_cfg.id)
+
+    class EA:
+        @staticmethod
+        def fromConfig(tgt_cfg, clock, dynamics, time_cfg, noise_cfg, estimation_cfg):
+            got["filter"][tgt_cfg.id] = dynamics
+            return Tok(simulation_id=tgt_cfg.id)
+
+    with shadow(SB, TargetAgent=TA, EstimateAgent=EA):
+        b._initTargets()
+        b._initEstimates()
+    return got
+
+
+def _dyn_params(d):
+    """What a SpecialPerturbations object carries that is specific to an agent or a configuration (the coefficient tables are shared data)."""
+    return {k: v for k, v in vars(d).items() if k not in ("c_nm", "s_nm")}
+
+
+def replay_builder(d):
+    plats = {int(k): tuple(v) for k, v in d["platforms"].items()}
+    ids = sorted(plats)
+    worst, where = 0.0, None
+    for order in (ids, ids[::-1]):
+        both = _builder_world(plats, order)
+        for aid in ids:
+            alone = _builder_world(plats, [aid])
+            for kind in ("truth", "filter"):
+                a, b = both[kind][aid].sat_ratio, alone[kind][aid].sat_ratio
+                want = (1.0 + plats[aid][2]) * plats[aid][0] / plats[aid][1]
+                e = max(abs(a - b), abs(a - want)) / max(1e-12, abs(want))
+                if e > worst:
+                    worst, where = e, f"{kind} dynamics of target {aid}, targets listed as {order}"
+    return worst > 1e-9, {"largest relative deviation of the area-to-mass coefficient": worst, "where": where}
+
+
+def o_builder_frame(rep):
+    from symx.core import assume, real, single_path
+
+    ids = (11, 12)
+    with single_path() as p:
+        plats = {}
+        for aid in ids:
+            a, m, r = real(f"area{aid}"), real(f"mass{aid}"), real(f"refl{aid}")
+            assume(a.t > 0, a.t <= 1000, m.t >= 1, m.t <= 100000, r.t >= 0, r.t <= 1)
+            plats[aid] = (a, m, r)
+        runs = {"12": _builder_world(plats, [11, 12]), "21": _builder_world(plats, [12, 11])}
+        alone = {aid: _builder_world(plats, [aid]) for aid in ids}
+        cons = p.constraints()
+
+        def inputs(mo):
+            return {"platforms": {str(aid): [float(mval(mo, v.t)) for v in plats[aid]] for aid in ids}}
+
+        for tag, both in runs.items():
+            for aid in ids:
+                for kind in ("truth", "filter"):
+                    A, B = _dyn_params(both[kind][aid]), _dyn_params(alone[aid][kind][aid])
+                    goals = [z3.BoolVal(sorted(A) == sorted(B))]
+                    for k in sorted(set(A) & set(B)):
+                        x, y = A[k], B[k]
+                        if isinstance(x, SReal) or isinstance(y, SReal):
+                            goals.append((x.t if isinstance(x, SReal) else rv(x)) == (y.t if isinstance(y, SReal) else rv(y)))
+                        elif isinstance(x, dict):
+                            goals.append(z3.BoolVal(sorted(map(str, x)) == sorted(map(str, y))))
+                        else:
+                            try:
+                                goals.append(z3.BoolVal(bool(x == y)))
+                            except Exception:  # noqa: BLE001
+                                goals.append(z3.BoolVal(type(x) is type(y)))
+                    area, mass, refl = plats[aid]
+                    goals.append(both[kind][aid].sat_ratio.t * mass.t == (1 + refl.t) * area.t)
+                    rep.prove(f"{kind}-dynamics[target {aid}, listed {tag}]", z3.And(*goals), cons, inputs=inputs, replay=replay_builder,
+                              sample="the dynamics object the builder gives a target carries that target's own area-to-mass coefficient and equals what it gets when it is the only target")
+        rep.reachable("reach", cons)
+
+
 def obligations(tier):
     obs = []
     for fam, (expect, tiers) in EXPECT.items():
@@ -1773,6 +1891,8 @@ def obligations(tier):
         name = f"frame-{fam}"
         obs.append(Ob(name, (lambda f, x: lambda rep: o_family(rep, f, x))(fam, expect), f"non-interference of truth, family {fam}: {FAMILIES[fam]}", 880))
         REPLAYS[name] = replay_family
+    obs.append(Ob("builder-frame", o_builder_frame, "ScenarioBuilder._initTargets/_initEstimates with two spacecraft of symbolic area, mass, reflectivity: each target's dynamics is its own", 300))
+    REPLAYS["builder-frame"] = replay_builder
     obs.append(Ob("remove-frame", o_remove_frame, "Scenario.removeTarget on a running scenario: only the removed target disappears; scheduled events of the other agents stay", 300))
     REPLAYS["remove-frame"] = replay_remove
     obs.append(Ob("add-config", o_add_config, "run-time additions do not change the truth propagation settings", 300))
